@@ -21,7 +21,7 @@ use crate::simterm::SimTerm;
 
 pub struct C06;
 
-const WAYS: [&str; 11] = [
+const WAYS: [&str; 12] = [
     "hidden_target",
     "set_hidden_later",
     "non_tty_term",
@@ -33,6 +33,7 @@ const WAYS: [&str; 11] = [
     "hidden_while_mp_hidden",
     "removed_while_mp_hidden",
     "stderr_of_iterator_adaptor",
+    "mp_hidden_later",
 ];
 
 fn style() -> ProgressStyle {
@@ -208,6 +209,22 @@ fn exec(sc: &Scenario) -> Report {
                         mp_hidden2 = Some(mp2);
                         silent_from = Some(i);
                     }
+                    "mp_hidden_later" => {
+                        // the (visible) MultiProgress itself is hidden; what its member showed
+                        // last says STALE, and the member is asked to redraw while hidden
+                        let _ = call(|| {
+                            hid.set_message("STALE");
+                            vis.set_message("STALE");
+                            hid.force_draw();
+                            vis.force_draw();
+                            if let Some(mp) = &mp_keep {
+                                mp.set_draw_target(ProgressDrawTarget::hidden());
+                            }
+                            hid.set_message("fresh");
+                            vis.set_message("fresh");
+                        });
+                        silent_from = Some(i);
+                    }
                     "removed_while_mp_hidden" => {
                         if let Some(mp) = &mp_keep {
                             mp.remove(&hid);
@@ -311,6 +328,34 @@ fn exec(sc: &Scenario) -> Report {
                 }
             }
         }
+        // a member that was asked to redraw while its MultiProgress was hidden does not come back
+        // with the frame it showed before, when the MultiProgress gets a terminal again
+        if way == "mp_hidden_later" && switch_at < ops.len() && r.violation.is_none() {
+            if let Some(mp) = &mp_keep {
+                let late_term = SimTerm::new(80, 30);
+                let lt = late_term.clone();
+                let late = call(|| {
+                    hid.disable_steady_tick();
+                    mp.set_draw_target(ProgressDrawTarget::term_like(Box::new(lt)));
+                    if let Some(s) = &sibling {
+                        s.tick();
+                    }
+                });
+                match late {
+                    Err(p) => r.violate("C06.no_panic", format!("giving the MultiProgress a terminal again panicked: {p}")),
+                    Ok(()) => {
+                        let rows = late_term.transcript();
+                        if rows.iter().any(|row| row.contains("STALE")) {
+                            r.violate(
+                                "C06.state_equivalence",
+                                format!("a member drew (message \"fresh\", then the history) while its MultiProgress was hidden; when the MultiProgress got a terminal again the frame it had shown before came back: {rows:?}"),
+                            );
+                        }
+                        r.probe("mp_hidden_then_visible_again");
+                    }
+                }
+            }
+        }
         r.probe_n("visible_twin_frames", vterm.flushes());
         r.nontrivial = ops.len() >= 3 && vterm.flushes() >= 1;
         let _ = vterm.width();
@@ -336,7 +381,7 @@ impl Check for C06 {
         "C06"
     }
     fn rule_text(&self) -> String {
-        "One way of being hidden per run (ProgressDrawTarget::hidden(), ProgressBar::hidden(), set_draw_target(hidden()) after having been visible, a real console::Term over a regular file = not a tty, member of a MultiProgress built on a hidden target or on the non-tty Term, bar removed from a visible MultiProgress with a live sibling, bar handed over from a visible MultiProgress to a hidden one, member of a hidden MultiProgress that is also hidden explicitly, or removed from it, before the MultiProgress gets a visible target; the stderr bar an iterator adaptor creates for itself). A history of 3..30 calls (tick/inc/dec/set_position/set_message/set_prefix/length ops/set_style/set_tab_width/println/suspend/reset*/finish*/abandon*/finish_using_style/force_draw/update/enable+disable_steady_tick/wrap_iter/getters, clock gaps and simulated sleeps) is applied in lock-step to the hidden bar and to a visible twin on its own simulated terminal, same virtual clock. Oracle: after every call position/length/message/prefix/is_finished are equal; a spy terminal attributes every call and query to the API call in progress and must see none from the hidden bar (also while a steady ticker runs); the file behind the non-tty Term stays empty; no call panics. Non-trivial: >= 3 calls and the visible twin painted at least one frame. Distinct = distinct scenario hash.".into()
+        "One way of being hidden per run (ProgressDrawTarget::hidden(), ProgressBar::hidden(), set_draw_target(hidden()) after having been visible, a real console::Term over a regular file = not a tty, member of a MultiProgress built on a hidden target or on the non-tty Term, bar removed from a visible MultiProgress with a live sibling, bar handed over from a visible MultiProgress to a hidden one, member of a hidden MultiProgress that is also hidden explicitly, or removed from it, before the MultiProgress gets a visible target; member of a visible MultiProgress that is hidden later - and gets a terminal again at the end: a member that redrew while hidden does not come back with the frame it showed before; the stderr bar an iterator adaptor creates for itself). A history of 3..30 calls (tick/inc/dec/set_position/set_message/set_prefix/length ops/set_style/set_tab_width/println/suspend/reset*/finish*/abandon*/finish_using_style/force_draw/update/enable+disable_steady_tick/wrap_iter/getters, clock gaps and simulated sleeps) is applied in lock-step to the hidden bar and to a visible twin on its own simulated terminal, same virtual clock. Oracle: after every call position/length/message/prefix/is_finished are equal; a spy terminal attributes every call and query to the API call in progress and must see none from the hidden bar (also while a steady ticker runs); the file behind the non-tty Term stays empty; no call panics. Non-trivial: >= 3 calls and the visible twin painted at least one frame. Distinct = distinct scenario hash.".into()
     }
     fn assumptions(&self) -> Vec<String> {
         vec![
@@ -353,7 +398,7 @@ impl Check for C06 {
     fn gen(&self, rng: &mut Rng, tier: Tier, _index: u64) -> Scenario {
         let mut sc = Scenario::new("C06", "twin", rng.next_u64());
         // the file-backed ways cost syscalls: keep them at a smaller share
-        sc.set("way", rng.weighted(&[5, 5, 1, 4, 1, 6, 2, 4, 4, 4, 3]) as u64);
+        sc.set("way", rng.weighted(&[5, 5, 1, 4, 1, 6, 2, 4, 4, 4, 3, 4]) as u64);
         sc.set("len_known", rng.chance(3, 4) as u64);
         sc.set("len0", boundary_u64(rng));
         sc.set("on_finish", rng.below(6));
